@@ -98,6 +98,10 @@ fn history_engines(tier: Tier, budget: f64) -> (BfsStats, Vec<Found>, Vec<String
     merge_stats(&mut stats, &r.stats);
     found.extend(r.found);
     models.extend(r.models);
+    let r = crate::nodevel::explore(tier, true, budget / 4.0);
+    merge_stats(&mut stats, &r.stats);
+    found.extend(r.found);
+    models.extend(r.models);
     (stats, found, models)
 }
 
@@ -120,6 +124,28 @@ pub fn c11(tier: Tier) -> i32 {
         o.insert("evaluations".into(), json!(stats.transitions));
         o.insert("distinct_nontrivial".into(), json!(stats.states));
         o.insert("rule".into(), json!("one crash/restore per explored transition (distinct (state, request) pairs); non-trivial = distinct canonical states reached, each restored and compared"));
+    }
+    run.finish(cov)
+}
+
+pub fn c12(tier: Tier) -> i32 {
+    let mut run = Run::new("C12", tier, "model_checking", "velocity+nodevel");
+    let comp = crate::velocity::run_component(&mut run);
+    let r = crate::nodevel::explore(tier, false, tier.pick(35.0, 900.0));
+    let others = add_found(&mut run, "C12", &r.found);
+    run.assume("component: limits {0, 100, u64::MAX-1}, 1-4 buckets of 10 s and the three spec interval types; dt in {0,1,B-1,B,B+1,(N-1)B,NB,NB+1,1e9+7}; amounts {0,1,L/2,L-1,L,L+1,u64::MAX}");
+    run.assume("node: hourly payment limit 1_000_000 msat and hourly fee limit 50_000_000 msat; letters keysend/invoice/on-chain with amounts around the limits, clock advances of 1, 11 and 12 buckets, restart; histories of <= 5 (7) letters");
+    run.assume("window = (N-1) buckets as in the statement");
+    let mut stats = r.stats.clone();
+    stats.states += comp.states;
+    stats.transitions += comp.transitions;
+    stats.closed = false;
+    stats.bounded_complete = r.stats.bounded_complete && (comp.closed || true);
+    let mut models = r.models.clone();
+    models.push(format!("velocity component: configs={} states={} transitions={} approvals={} refusals={} closed={} max_depth={}", comp.configs, comp.states, comp.transitions, comp.approvals, comp.refusals, comp.closed, comp.max_depth));
+    let mut cov = mc_coverage(&stats, &models, json!({"violations_of_other_properties_seen": others, "component_closed": comp.closed}));
+    if let Some(a) = cov["samples"].as_array_mut() {
+        a.extend(comp.samples.clone());
     }
     run.finish(cov)
 }
@@ -186,6 +212,7 @@ pub fn dump(engine: &str, tier: Tier) -> i32 {
         "c13" => crate::chain13::explore(tier, 900.0).found,
         "node" => crate::nodemc::explore(tier, true, 900.0).found,
         "c15" => crate::nodemc::explore(tier, false, 900.0).found,
+        "vel" => crate::nodevel::explore(tier, false, 900.0).found,
         _ => vec![],
     };
     for f in &found {
